@@ -205,15 +205,22 @@ def sg_enum(prog: Program) -> RuleResult:
     return r
 
 
-def sg_sweep(prog: Program) -> RuleResult:
+def sg_sweep(prog: Program, census_only: bool = False) -> RuleResult:
+    """`census_only` (C13): the range of a domain-less variable is all the property is about.  When the enumeration itself leaves out
+    wrappers whose instance is gone (SG-ENUM dead-skipped), the census is right whether or not a sweep ran first; the sweep obligations
+    are then discharged by that fact.  C14 and C20 (what dead instances leave behind in the graph) need the sweep unconditionally."""
     r = RuleResult("SG-SWEEP", "dead instances are swept before the first result of a query", floor=2)
+    skips_dead = False
+    if census_only:
+        skips_dead = all(o.ok for o in sg_enum(prog).obligations if o.key.endswith("#dead-skipped")) and any(o.key.endswith("#dead-skipped") for o in sg_enum(prog).obligations)
     rq = prog.cls("symbolic.ResultQuantifier")
     f = prog.method(rq.qual, "evaluate", inherited=False)
     cfg = CFG(f.node)
     sweep = [n for n in cfg.nodes if n.stmt is not None and n.kind == "stmt" and any(call_name(c) == "remove_dead_instances" for c in calls_in(n.stmt))]
     evals = [n for n in cfg.nodes if n.stmt is not None and n.kind in ("stmt", "for") and any(call_name(c) == "_evaluate__" for p in cfg._own_parts(n) for c in calls_in(p))]
     ok = bool(sweep) and bool(evals) and all(any(cfg.dominates(s.id, e.id) and s.id != e.id for s in sweep) for e in evals)
-    r.check(ok, "ResultQuantifier.evaluate#sweep-first", site(f), src(sweep[0].stmt) if sweep else "", "sweep dominates the evaluation",
+    r.check(ok or skips_dead, "ResultQuantifier.evaluate#sweep-first", site(f), src(sweep[0].stmt) if sweep else "",
+            "sweep dominates the evaluation" if ok else "no sweep before the evaluation, but the enumeration skips wrappers whose instance is gone: the census is exact all the same",
             "the public evaluation entry does not sweep dead instances before evaluating")
     # other evaluate overrides must go through it
     for c in prog.subclasses(rq.qual, strict=True):
@@ -231,7 +238,8 @@ def sg_sweep(prog: Program) -> RuleResult:
                 if isinstance(s, ast.If) and isinstance(s.test, ast.Compare) and isinstance(s.test.ops[0], ast.Is) and src(s.test.comparators[0]) == "None" and src(s.test.left).endswith(".instance"):
                     if any(call_name(c) == "remove_node" for c in calls_in(s)):
                         good = True
-    r.check(good, "SymbolGraph.remove_dead_instances#all-dead-nodes", site(rd), "", "every node whose referent is dead is removed",
+    r.check(good or skips_dead, "SymbolGraph.remove_dead_instances#all-dead-nodes", site(rd), "",
+            "every node whose referent is dead is removed" if good else "the sweep is incomplete, but the enumeration skips wrappers whose instance is gone: the census is exact all the same",
             "the sweep does not remove every graph node whose weak referent is dead")
     return r
 
@@ -270,5 +278,5 @@ def run(prog: Program, tier: str) -> List[RuleResult]:
     from .c03 import domain_cache
 
     # the census reaches the variable through the caching iterator: an instance dropped from the cache is missing from the range
-    return [sg_register(prog), sg_enum(prog), sg_sweep(prog), sg_evaltime(prog), domain_cache(prog),
+    return [sg_register(prog), sg_enum(prog), sg_sweep(prog, census_only=True), sg_evaltime(prog), domain_cache(prog),
             user_truth(prog, ["entity_query_language.symbol_graph"], 3)]
